@@ -39,7 +39,7 @@ Proof. exact ensure_true. Qed.
 (** ckpt_position_true: in every state reachable by scans of batches that continue the current
     chain (any order, any batching, any policy), rewinds, and reorgs above the rewound height,
     every checkpoint of every pool points at the true tree size of its height. [reach] also includes
-    truncate_to_chain_state with the chain's own state of the target height. *)
+    truncate_to_chain_state with the chain's own state of the target height and rewind_to_chain_state. *)
 Theorem C06_ckpt_position_true : forall budget chunk c w,
   reach budget chunk c w -> forall i h p,
   In (h, p) (ck (proj_pool i w)) -> p = true_pos (proj_chain i c h).
@@ -156,6 +156,27 @@ Theorem C06_truncate_to_chain_state_sound : forall budget blocks mn target sizes
                \/ has_at (ck (proj_pool i w')) target = false) /\
   (w3_sorted w -> w3_sorted w').
 Proof. exact tcs_spec. Qed.
+
+(** rewind_to_chain_state (tree part): the trees only lose checkpoints (positions and retained ids
+    unchanged); for a target inside the pruning window that some pool has checkpointed, no pool
+    holds a checkpoint above the target afterwards. (For a target without a checkpoint the code cuts
+    to the next checkpoint ABOVE the target by design.) *)
+Theorem C06_rewind_to_chain_state_sound : forall depth blocks mn target w w',
+  rewind_to_chain_state depth blocks mn target w = Ok w' ->
+  sub3 w' w /\ (w3_sorted w -> w3_sorted w') /\
+  (forall maxs, zmax_list blocks = Some maxs -> target < maxs -> maxs - (depth - 1) <= target -> 0 <= target ->
+     (exists j, has_at (ck (proj_pool j w)) target = true) ->
+     forall i e, In e (ck (proj_pool i w')) -> fst e <= target).
+Proof. exact rewind_spec. Qed.
+
+(** ... and that guard is necessary: a successful rewind inside the pruning window that leaves a
+    checkpoint above the target (known finding C06-F4). *)
+Theorem C06_rewind_unguarded_refuted :
+  exists depth blocks mn target w w' maxs i e,
+    rewind_to_chain_state depth blocks mn target w = Ok w' /\
+    zmax_list blocks = Some maxs /\ target < maxs /\ maxs - (depth - 1) <= target /\ 0 <= target /\
+    In e (ck (proj_pool i w')) /\ target < fst e.
+Proof. exact rewind_unguarded_refuted. Qed.
 
 (** the five outcomes of plan_tree_truncation: when each applies and what it does; the two
     refusals return an error without a new state *)
